@@ -1,5 +1,6 @@
 pub mod c01_04;
 pub mod c07_12_13;
+pub mod c06_08_16;
 
 use crate::alpha::*;
 use crate::report::*;
@@ -42,6 +43,33 @@ pub fn run(prop: &str, tier: &str) -> i32 {
             run.rule = format!("{}; x all 2^n masks (n <= 4); relations route<->route", E1_RULE);
             run_e1(&mut run, &[1, 2, 3], &[false, true], 99, c07_12_13::eval_c13);
         }
+        "C06" => {
+            run.rule = format!("periodic states of: {}; relations: replicated reflective build (n <= 3 quick / 4 thorough), shift structure, 11-14 translations per state", E1_RULE);
+            let mx = if run.thorough() { 4 } else { 3 };
+            run_e1(&mut run, &[1, 2, 3], &[true], 99, move |s| c06_08_16::eval_c06_with(s, mx));
+        }
+        "C08" => {
+            run.rule = format!("1D/2D states of: {}; transitions: every unused coordinate (generators, anchor, width) rewritten to each value of a 6-value menu, all pairs of such deviations with extreme values (n <= 3); 1D closed form; 2D vs 3D slab", E1_RULE);
+            run_e1(&mut run, &[1, 2], &[false, true], 99, c06_08_16::eval_c08);
+        }
+        "C16" => {
+            run.rule = format!("nodes: states with |S| <= K-1 of: {}; edges: S -> S + p for every alphabet point p not in S and every ring point at r(1 +- 2^-20), 1.25 r around each cell (6-10 directions)", E1_RULE);
+            let fams = e1_families(run.thorough(), &[1, 2, 3], &[false, true]);
+            for fam in fams {
+                let k = if fam.alpha == "L1" { 4 } else { fam.k.saturating_sub(1).max(1) };
+                let subs = subsets_upto(fam.pool.len(), k);
+                let items: Vec<(State, Vec<glam::DVec3>)> = subs
+                    .iter()
+                    .map(|sub| {
+                        let st = make_state(fam.dim, fam.periodic, &fam.bx, &fam.alpha, &fam.pool, sub);
+                        let cands: Vec<glam::DVec3> = (0..fam.pool.len()).filter(|i| !sub.contains(i)).map(|i| fam.pool[i]).collect();
+                        (st, cands)
+                    })
+                    .collect();
+                run.family(format!("{} (nodes |S| <= {})", fam.describe(), k), items.len() as u64);
+                run.explore(&items, c06_08_16::eval_c16, |s| s.0.to_json());
+            }
+        }
         _ => {
             eprintln!("unknown property {}", prop);
             return 2;
@@ -68,6 +96,19 @@ pub fn replay(path: &str) -> i32 {
         "c02" => c01_04::eval_c02(&st),
         "c03" => c01_04::eval_c03(&st),
         "c04" => c01_04::eval_c04(&st),
+        "c06" => c06_08_16::eval_c06_with(&st, 4),
+        "c08" => c06_08_16::eval_c08(&st),
+        "c16" => {
+            // the added generator (if any) is the last one of the recorded state: replay the edge from the state without it
+            if st.id.contains("|add=") {
+                let mut base = st.clone();
+                let p = base.gens.pop().unwrap();
+                base.id = st.id.split("|add=").next().unwrap().to_string();
+                c06_08_16::eval_c16(&(base, vec![p]))
+            } else {
+                c06_08_16::eval_c16(&(st.clone(), vec![]))
+            }
+        }
         "c07" => c07_12_13::eval_c07_with(&st, 5),
         "c12" => c07_12_13::eval_c12(&st),
         "c13" => c07_12_13::eval_c13(&st),
